@@ -20,8 +20,10 @@ CONSTANTS N,          \* number of named types: "a", "b" (, "c")
           APs,        \* additionalProperties settings explored, subset of {"absent","true","false","string","any"}
           Nest,       \* BOOLEAN: may the value of an own key be an object that has an allOf list of its own?
           RootChoice, \* BOOLEAN: the root is a choice `@x | @y` of two of the types (instead of an object)
-          OptDefTypes \* BOOLEAN: the named types are created with "keys are optional by default" (the root is not): a key
+          OptDefTypes,\* BOOLEAN: the named types are created with "keys are optional by default" (the root is not): a key
                       \* of a type is then optional unless it says otherwise, and keeps that status when inherited
+          SelfReg     \* BOOLEAN: the root object is also registered as a type, under the name "main": the named types (and
+                      \* the root itself) may list it, so inheritance chains - and cycles - may pass through the root
 
 Names == IF N = 2 THEN {"a", "b"} ELSE {"a", "b", "c"}
 NameSeq == IF N = 2 THEN <<"a", "b">> ELSE <<"a", "b", "c">>
@@ -29,11 +31,12 @@ NameSeq == IF N = 2 THEN <<"a", "b">> ELSE <<"a", "b", "c">>
 \* own key lists: at most one key per object here (diamonds and overlaps come from inheritance), in two flavours.
 \* The value of the key is a scalar (sub = <<>>) or, with Nest, the object { // {allOf: "@x"} "n": 0 } (sub = <<x>>):
 \* an heir below an heir, whose own list has to be merged as well.
-Subs == {<<>>} \cup (IF Nest THEN {<<x>> : x \in Names} ELSE {})
+ListNames == Names \cup (IF SelfReg THEN {"main"} ELSE {})
+Subs == {<<>>} \cup (IF Nest THEN {<<x>> : x \in ListNames} ELSE {})
 OwnKeys == {<<>>} \cup {<<[k |-> k, opt |-> o, sub |-> s]>> : k \in KeySet, o \in BOOLEAN, s \in Subs}
 NestedObj(e) == [kind |-> "object", own |-> <<[k |-> "n", opt |-> FALSE, sub |-> <<>>]>>, allOf |-> e.sub, ap |-> "absent"]
-Lists == {<<>>} \cup {<<x>> : x \in Names} \cup
-         (IF MaxList >= 2 THEN {<<pr[1], pr[2]>> : pr \in {q \in Names \X Names : q[1] # q[2]}} ELSE {})
+Lists == {<<>>} \cup {<<x>> : x \in ListNames} \cup
+         (IF MaxList >= 2 THEN {<<pr[1], pr[2]>> : pr \in {q \in ListNames \X ListNames : q[1] # q[2]}} ELSE {})
 Objects == {[kind |-> "object", own |-> o, allOf |-> l, ap |-> p] : o \in OwnKeys, l \in Lists, p \in APs}
 Defs == Objects \cup {[kind |-> "withheld", own |-> <<>>, allOf |-> <<>>, ap |-> "absent"],
                       [kind |-> "scalar", own |-> <<>>, allOf |-> <<>>, ap |-> "absent"]}
@@ -57,14 +60,14 @@ Next == \/ \E d \in Defs : DefineType(d)
 Spec == Init /\ [][Next]_vars
 
 Idx(n) == CHOOSE i \in 1..N : NameSeq[i] = n
-D(n) == def[Idx(n)]
-Registered == {n \in Names : D(n).kind # "withheld"}
+D(n) == IF n = "main" THEN root ELSE def[Idx(n)]
+Registered == {n \in Names : D(n).kind # "withheld"} \cup (IF SelfReg /\ root.kind = "object" THEN {"main"} ELSE {})
 
 \* ---- inheritance graph over registered objects
 Parents(o) == {o.allOf[i] : i \in 1..Len(o.allOf)}
 RECURSIVE Anc(_, _)
 Anc(S, k) == IF k = 0 THEN S ELSE Anc(S \cup UNION {IF D(n).kind = "object" THEN Parents(D(n)) ELSE {} : n \in S}, k - 1)
-Ancestors(o) == Anc(Parents(o), N)              \* all names reachable through allOf lists
+Ancestors(o) == Anc(Parents(o), N + 1)          \* all names reachable through allOf lists
 NestedOf(o) == {NestedObj(o.own[i]) : i \in {j \in 1..Len(o.own) : o.own[j].sub # <<>>}}
 TopObjects == (IF root.kind = "object" THEN {root} ELSE {}) \cup {D(n) : n \in {m \in Registered : D(m).kind = "object"}}
 AllObjects == TopObjects \cup UNION {NestedOf(o) : o \in TopObjects}
@@ -77,7 +80,7 @@ Dep(S, k) == IF k = 0 THEN S ELSE Dep(S \cup UNION {IF D(n).kind = "object" THEN
 Missing   == \/ \E o \in AllObjects : \E n \in Ancestors(o) : D(n).kind = "withheld"
              \/ root.kind = "choice" /\ \E i \in 1..2 : D(root.allOf[i]).kind = "withheld"
 NonObject == \E o \in AllObjects : \E n \in Ancestors(o) : D(n).kind = "scalar"
-Cyclic    == \E n \in Registered : D(n).kind = "object" /\ n \in Dep(Needs(D(n)), N)
+Cyclic    == \E n \in Registered : D(n).kind = "object" /\ n \in Dep(Needs(D(n)), N + 1)
 
 \* merged key list, defined when none of the three above applies (depth bounded by N+1)
 \* an entry of a merged list: key, optional flag, and the merged key names of the value if it is a nested heir
@@ -94,7 +97,7 @@ MergeD(o, depth) ==
               RECURSIVE Cat(_)
               Cat(i) == IF i > Len(o.allOf) THEN <<>> ELSE inh(i) \o Cat(i + 1)
           IN own \o Cat(1)
-Merge(o) == MergeD(o, N + 2)
+Merge(o) == MergeD(o, N + 3)
 HasDup(s) == \E i, j \in 1..Len(s) : i # j /\ s[i].k = s[j].k
 Structural == Missing \/ NonObject \/ Cyclic
 Duplicate == ~Structural /\ \E o \in AllObjects : HasDup(Merge(o))
@@ -123,7 +126,7 @@ OriginD(o, name, depth) ==      \* sequence parallel to MergeD(o, depth): [via, 
 \* an accepted project has no duplicate key in any merged object
 MergeHasNoDuplicateKeys == (done /\ Accepted) => \A o \in AllObjects : ~HasDup(Merge(o))
 \* merging is insensitive to the depth bound once it exceeds the longest chain
-MergeStable == (done /\ ~Structural /\ root.kind = "object") => MergeD(root, N + 2) = MergeD(root, N + 3)
+MergeStable == (done /\ ~Structural /\ root.kind = "object") => MergeD(root, N + 3) = MergeD(root, N + 4)
 \* an object without an allOf list keeps exactly its own keys
 NoListNoChange == (done /\ ~Structural /\ root.kind = "object" /\ root.allOf = <<>>) =>
                      /\ Len(Merge(root)) = Len(root.own)
@@ -135,10 +138,10 @@ NestedHeirGains == (done /\ ~Structural /\ root.kind = "object") =>
                          /\ nk[1] = "n" /\ Len(nk) = 1 + Len(m)
                          /\ \A j \in 1..Len(m) : nk[j + 1] = m[j].k
 
-Emit == done => PrintT(ToJson([optdef |-> OptDefTypes, types |-> [i \in 1..N |-> [name |-> NameSeq[i], d |-> def[i]]], root |-> root,
+Emit == done => PrintT(ToJson([optdef |-> OptDefTypes, selfreg |-> SelfReg, types |-> [i \in 1..N |-> [name |-> NameSeq[i], d |-> def[i]]], root |-> root,
                                refusals |-> Refusals,
                                keys |-> IF Structural \/ root.kind # "object" THEN <<>> ELSE Merge(root),
-                               origin |-> IF Structural \/ root.kind # "object" THEN <<>> ELSE OriginD(root, "root", N + 2),
+                               origin |-> IF Structural \/ root.kind # "object" THEN <<>> ELSE OriginD(root, "root", N + 3),
                                \* a choice root: the listing of each alternative that is an object
                                alts |-> IF Structural \/ root.kind # "choice" THEN <<>>
                                         ELSE [i \in 1..2 |-> [name |-> root.allOf[i],
